@@ -48,11 +48,15 @@ ASSUMPTIONS = ['SQLite 3.40 catalog PRAGMAs (table_info, index_list, index_info,
                'PostgreSQL/MySQL/Oracle are represented by the DDL text of the real provider classes bound over stub driver modules '
                '(vlib/stubs) with a mock pool; name limits (63/64/30), case folding (MySQL column/index/constraint names '
                'case-insensitive, quoted PostgreSQL/Oracle names case-sensitive) and namespaces are my transcription of the manuals',
-               'the DDL parser is cross-validated on every accepted SQLite case: the parsed SQLite script must equal the PRAGMA catalog']
+               'the DDL parser is cross-validated on every accepted SQLite case: the parsed SQLite script must equal the PRAGMA catalog',
+               'exception types treated as a crash rather than a rejection (CRASH_TYPES) are those the mapping code never raises with '
+               'throw(...): read from pony/orm/core.py, dbschema.py, dbapiprovider.py']
 SHARDS = {'quick': 4, 'thorough': 16}
 MIN_EVALS = {'quick': 600, 'thorough': 10000}
 CLASS_FLOORS = {'accepted': 0.6, 'dialect:sqlite': 0.2, 'dialect:postgres': 0.1, 'dialect:mysql': 0.1, 'dialect:oracle': 0.1,
-                'has:relationship': 0.4, 'has:explicit-name': 0.3}
+                'has:relationship': 0.4, 'has:explicit-name': 0.3,
+                'has:link-table-name-taken': 0.01, 'has:m2m-wide-default-columns': 0.03,
+                'has:m2m-on-single-reference-wide-pk': 0.005}
 
 _counter = [0]
 
@@ -576,7 +580,20 @@ def _is_link_table_name_of_later_entity(case, message):
             and 'has:link-table-name-taken' in features(case))
 
 
+def _is_oracle_truncated_sequence_trigger_collision(case, message):
+    """open finding C26-oracle-truncated-sequence-trigger-collision: OraSequence / OraTrigger truncate the table name to make room
+    for the _SEQ / _BI suffix (fix 9816ebe) but nothing checks the result for uniqueness: two distinct table names of 27..30
+    characters that share their first 26 (27) characters get the SAME sequence (trigger) name; generate_mapping accepts, the
+    script creates the sequence twice (create_tables would silently skip the second sequence and trigger as 'already existing')."""
+    tag, dialect = _tag(message)
+    if dialect != 'oracle' or tag not in ('duplicate-name:sequence', 'duplicate-name:trigger'):
+        return False
+    m = _re.search(r"(?:sequence|trigger) \(?(?:'[^']*', )?'([^']*)'\)? collides", message)
+    return bool(m) and len(m.group(1)) == M.NAME_LIMIT['oracle'] and m.group(1).endswith(('_SEQ', '_BI'))
+
+
 EXCLUSIONS = {
+    'oracle_truncated_sequence_trigger_collision': _is_oracle_truncated_sequence_trigger_collision,
     'fk_name_ignored': _is_fk_name_ignored,
     'link_table_name_of_later_entity': _is_link_table_name_of_later_entity,
     'default_schema_qualified_duplicate': _is_default_schema_qualified_duplicate,
@@ -596,7 +613,9 @@ MANIFEST = {
             'from the spec alone (columns, nullability, pk, unique, indexes, foreign keys, ON DELETE), a row per entity is inserted '
             'through Pony and a second Database passes check_tables. For the other dialects the real provider emits its DDL over '
             'stub drivers and a parser checks name limits, name uniqueness per namespace, foreign-key targets, creation order and '
-            'the same structural expectation. Sampled, not exhaustive.',
+            'the same structural expectation. Names the declarations spell out must be used exactly as declared (a silently renamed '
+            'link table is a violation; a declared link-table name that is already taken must be rejected), and an internal error '
+            '(AssertionError, KeyError, ...) escaping generate_mapping counts as a violation, not as a rejection. Sampled, not exhaustive.',
     'note': 'No PostgreSQL/MySQL/Oracle server exists in the sandbox: their DDL is parsed, not executed; limits, case folding and '
             'namespaces are transcribed from the manuals. Column types and DEFAULT clauses are not checked. Defaults Pony does not '
             'document (optional Json/array NOT NULL, nullable keyed optional strings, ON DELETE without cascade_delete) are not asserted.',
